@@ -306,14 +306,6 @@ def _lossy_bam(seg, world, smp, loss, path):
     ga = next(g for g in world["genes"] if g["name"] == seg["gene_a"])
     spans = []
     pad = 0
-    if loss == "locus_sliver":
-        # only a sliver of the locus keeps reads: decent depth where covered, nothing in the
-        # regions used for copy-number calling
-        keep_a, keep_b = next((a, b) for nm, a, b in ga["regions"] if nm == "up")
-        regs = list(ga["regions"]) + list(ga["pregions"] or [])
-        lo, hi = min(a for _, a, b in regs), max(b for _, a, b in regs)
-        # (no margin beyond the locus: the neighbouring gene's reads must stay untouched)
-        spans = [(lo, keep_a + 5), (keep_b - 5, hi)]
     if loss in ("locus",):
         regs = list(ga["regions"]) + list(ga["pregions"] or [])
         spans = [(min(a for _, a, b in regs) - pad, max(b for _, a, b in regs) + pad)]
@@ -345,6 +337,13 @@ def _lossy_bam(seg, world, smp, loss, path):
                     extra_records=[(r[0], r[1], r[2], r[3], 0, 60, 40, 1) for r in decoy])
         return len(reads), len(kept)
     kept = [r for r in reads if not any(r[0] < b and a < ref_end(r) for a, b in spans)]
+    if loss == "locus_sliver":
+        # of all locus reads only those touching the gene's `up` region survive (full depth there and a
+        # little spill-over into the first exon; nothing anywhere else in the locus)
+        regs = list(ga["regions"]) + list(ga["pregions"] or [])
+        lo, hi = min(a for _, a, b in regs), max(b for _, a, b in regs)
+        ua, ub = next((a, b) for nm, a, b in ga["regions"] if nm == "up")
+        kept = [r for r in reads if not (r[0] < hi and lo < ref_end(r)) or (r[0] < ub and ua < ref_end(r))]
     if loss == "neutral_sparse":
         # a single read survives in the neutral region: depth far below 2
         c0, c1 = world["neutral"]
